@@ -282,6 +282,18 @@ Definition blocked (reads : list read) (n k : nat) (selected : list nat) (ri : n
 Definition maximal_ok (reads : list read) (n k : nat) (selected : list nat) : bool :=
   forallb (fun ri => mem ri selected || blocked reads n k selected ri) (seq 0 (length reads)).
 
+(* The same two checks with the span counts tabulated once per case (ReadSelectProofs.fast_evaluators_agree:
+   equal to cap_ok / maximal_ok for all arguments); used by the harness on large read sets. *)
+Definition count_table (reads : list read) (n : nat) (selected : list nat) : list (nat * nat) :=
+  map (fun i => (i, span_count reads selected i)) (seq 0 n).
+Definition cap_ok_fast (reads : list read) (n k : nat) (selected : list nat) : bool :=
+  forallb (fun ic => snd ic <=? k) (count_table reads n selected).
+Definition maximal_ok_fast (reads : list read) (n k : nat) (selected : list nat) : bool :=
+  let tbl := count_table reads n selected in
+  forallb (fun ri => mem ri selected ||
+                     existsb (fun ic => spans (get_read reads ri) (fst ic) && (k <=? snd ic)) tbl)
+          (seq 0 (length reads)).
+
 (* trace comparison for the correspondence (L2) *)
 Fixpoint list_eqb {A} (eqb : A -> A -> bool) (a b : list A) : bool :=
   match a, b with
